@@ -275,6 +275,28 @@ def returned_expr(fnode):
 
 # ------------------------------------------------------------------ provenance / parity
 
+def triple_products(e):
+    """[(L, M, R, node)] for every product  L @ M @ R  (left-associated chain of exactly the outer three factors) in e"""
+    out = []
+    for n in ast.walk(e):
+        if isinstance(n, ast.BinOp) and isinstance(n.op, ast.MatMult) and isinstance(n.left, ast.BinOp) and isinstance(n.left.op, ast.MatMult):
+            out.append((n.left.left, n.left.right, n.right, n))
+    return out
+
+
+def is_transpose_of(a, b):
+    """a is the transpose of b (syntactically: a == b.mT / b.T / b.transpose(-1,-2) or the other way round)"""
+    def t_of(x):
+        if isinstance(x, ast.Attribute) and x.attr in ('mT', 'T', 'mH'):
+            return x.value
+        if isinstance(x, ast.Call) and isinstance(x.func, ast.Attribute) and x.func.attr in ('transpose', 'swapaxes') and \
+                sorted(src(y) for y in x.args) == ['-1', '-2']:
+            return x.func.value
+        return None
+    ta, tb = t_of(a), t_of(b)
+    return (ta is not None and dump(ta) == dump(b)) or (tb is not None and dump(tb) == dump(a))
+
+
 def free_names(e):
     return {n.id for n in ast.walk(e) if isinstance(n, ast.Name)}
 
